@@ -92,6 +92,16 @@ def dagger_projectors(ctx, f, rule="R-COV"):
                         bad.append(s)
                 elif a[0] == "dag" and (a[1] == b or (b[0] == "*" and a[1] in b[1])):
                     n += 1
+            elif isinstance(s, tuple) and s and s[0] == "call" and s[1] == "numpy.outer" and len(s[2]) == 2:
+                a, b = s[2]
+                strip = lambda x: [y for y in x[1] if y[0] != "c"][0] if x[0] == "*" and len([y for y in x[1] if y[0] != "c"]) == 1 else x  # noqa: E731
+                a, b = strip(a), strip(b)
+                if b == a or (b[0] in ("conj", "T", "dag") and b[1] == a) or (a[0] == "conj" and a[1] == b):
+                    n += 1
+                    if not (b[0] == "conj" and b[1] == a):
+                        bad.append(s)
+    if not n:
+        ctx.ob(rule, f, "pure-state projectors are v @ Dagger(v)", None, "no outer product of a vector with itself recognised in the returned value", required=False)
     if n:
         ctx.ob(rule, f, "pure-state projectors are v @ Dagger(v)", not bad, f"{n} outer product(s) with conjugate transpose" if not bad else f"{show(bad[0])[:70]} lacks the conjugate (or the transpose)")
 
@@ -212,4 +222,26 @@ def run(ctx):  # noqa: C901
     Ngg = Normalizer(m, ggm, inline=False)
     offd = [Ngg(n.value) for n in walk_no_nested(ggm.node) if isinstance(n, ast.Assign) and isinstance(n.targets[0], ast.Name) and n.targets[0].id == "gm_op" and "e_mat" in unparse(n.value)]
     okgg = len(offd) == 2 and ("+", tuple(sorted([("n", "e_mat"), ("dag", ("n", "e_mat"))], key=repr))) in offd
+    # diagonal generators: sqrt(2/(l(l+1))) * diag(1,..,1 (l times), -l, 0,..,0)
+    from ..rules import expand_at, value_at
+    from ..segvec import SegEval
+    dg = [n for n in walk_no_nested(ggm.node) if isinstance(n, ast.Call) and m.resolve_call(ggm, n).key == "numpy.diag" and n.args]
+    okd, detd = None, "np.diag(...) of a constructed vector not found"
+    if dg:
+        t = Ngg(dg[0].args[0])
+        for _ in range(3):
+            t = expand_at(m, ggm, t, dg[0], [x[1] for x in subterms(t) if isinstance(x, tuple) and len(x) == 2 and x[0] == "n" and ggm.param(x[1]) is None], Ngg)
+        sv = SegEval(Ngg).seg(t)
+        if sv is None:
+            detd = f"diagonal vector {show(t)[:80]} is not a recognised run construction"
+        else:
+            E = lambda src: Ngg(ast.parse(src, mode="eval").body)  # noqa: E731
+            want_runs = [(("c", 1), E("ind_1")), (E("-ind_1"), ("c", 1)), (("c", 0), E("dim - ind_1 - 1"))]
+            want_sc = E("np.sqrt(2 / (ind_1 * (ind_1 + 1)))")
+            sc, runs = sv
+            runs = [(v_, ln_) for v_, ln_ in runs if ln_ != ("c", 0)]
+            okd = runs == want_runs and (Ngg._mul(list(sc)) if len(sc) != 1 else sc[0]) == want_sc
+            detd = "l ones, then -l, then zeros; scaled by sqrt(2/(l(l+1)))" if okd else \
+                f"runs {[(show(v), show(ln)) for v, ln in runs]} x {[show(x)[:40] for x in sc]}: the non-zero block is not [1]*l + [-l] in the leading positions with the documented normalisation"
+    ctx.ob("R-ENUM", ggm, "diagonal generator l == c_l * diag(1 x l, -l, 0 x (d - l - 1))", okd, detd, dg[0] if dg else None, required=okd is not None)
     ctx.ob("R-COV", ggm, "off-diagonal generators are E + Dagger(E) and i(E - Dagger(E))", okgg, "Hermitian by construction" if okgg else f"forms {[show(x)[:40] for x in offd]}")
